@@ -135,6 +135,9 @@ def match_known(div, prop, known):
             continue
         if 'act' in m and any(a.get(x) != v for x, v in m['act'].items()):
             continue
+        if m.get('act_pred') == 'supply_positive_and_third_party_minter' and not (
+                a.get('supply', 0) > 0 and a.get('minter') not in (None, 'none', 'its')):
+            continue
         if 'diff_fields' in m:
             got = sorted(d['field'] for d in div.get('diffs', []))
             if not all(any(g == f or g.startswith(f) for f in m['diff_fields']) for g in got):
@@ -211,6 +214,8 @@ def graph_job(prop, tier, seed, job, policy, known, acc):
         div = r.get('divergence')
         if not div:
             continue
+        if div['kind'] == 'init':
+            raise ToolError('the harness cannot construct the initial state of %s: %s' % (spec, json.dumps(div)[:600]))
         if walks_by_id is None:
             walks_by_id = {}
             with open(wpath) as f:
